@@ -84,6 +84,7 @@ impl<'a> ZipFile<'a> {
 //@use zipfile_unix_mode nobody
 //@use zipfile_name nobody
 //@use zipfile_get_raw_reader nobody
+//@use zipfile_encrypted nobody
 }
 impl CentralDirectoryEnd {
 //@use cde_find_and_parse nobody
